@@ -145,7 +145,7 @@ def obs_collection(pc, out, prefix=""):
 def _proj(name):
     import cartopy.crs as ccrs
 
-    return {None: None, "robinson": ccrs.Robinson(), "ortho": ccrs.Orthographic(central_longitude=20.0, central_latitude=30.0), "robinson180": ccrs.Robinson(central_longitude=180.0), "mollweide-120": ccrs.Mollweide(central_longitude=-120.0)}[name]
+    return {None: None, "robinson": ccrs.Robinson(), "ortho": ccrs.Orthographic(central_longitude=20.0, central_latitude=30.0), "robinson180": ccrs.Robinson(central_longitude=180.0), "mollweide-120": ccrs.Mollweide(central_longitude=-120.0), "robinson90": ccrs.Robinson(central_longitude=90.0)}[name]
 
 
 QUERY_LL = [(31.0, 12.0), (-179.0, -3.0), (10.0, 88.0)]
